@@ -153,8 +153,89 @@ def run(ctx, rep):
             ok = ok and set(tl_calls) == {tl_op} and set(br_calls) == {br_op}
         rep.check(ok, "R16.4", "Rectangle::" + nm, "Rectangle::%s must build its top-left corner with %s and its bottom-right corner with %s of the operands' corners; found %s" % (nm, tl_op, br_op, det or show(ro, maxd=5)),
                   at=f.span, fn=f.path)
+    try:
+        intersection_cases(prog, rep, inter)
+    except Exception as e:
+        import traceback; traceback.print_exc()
+        rep.fail("R16.8", "engine", "order-type analysis crashed: %r" % (e,), status="undecided")
     from rules import c16_tables
     c16_tables.run(prog, rep)
     from rules import axis
     axis.run_for(ctx.program("default"), rep, 'R16.6', ['core/src/primitives/rectangle', 'core/src/geometry', 'src/primitives/rectangle/mod.rs', 'src/geometry'], 'rectangle and geometry operations treat the axes independently')
 
+
+
+def intersection_cases(prog, rep, inter):
+    """R16.8 for two non-empty rectangles `intersection` takes the corner-building exit exactly when their column ranges
+    and their row ranges overlap, and the empty exit otherwise.  The decision touches the eight corner coordinates only
+    through comparisons, so it is decided by exhaustive case analysis over their order types (mirq.orders, D5): four
+    x ranks and four y ranks, 100 x 100 admissible cases (top_left <= bottom_right on each axis)."""
+    from mirq.orders import OrderEval, Undecided, Sc, assignments
+    from mirq.paths import Paths, Unsupported
+    from mirq.origin import show
+    P_ = Paths(prog, inline=lambda g: prog.is_new(g))
+    try:
+        summs = P_.of(inter)
+    except Unsupported as e:
+        rep.fail("R16.8", "intersection", "cannot summarise: %s" % e, status="undecided", at=inter.span, fn=inter.path)
+        return
+
+    def is_br(t, who):
+        t = strip_refs(t)
+        return t[0] == "call" and t[1].endswith("Rectangle::bottom_right") and len(t[3]) == 1 and strip_refs(t[3][0])[0] == "param" and strip_refs(t[3][0])[2] == who
+    both = []
+    for sm in summs:
+        v = {}
+        for fc in sm.facts:
+            if fc[0] == "variant":
+                for who in ("self", "other"):
+                    if is_br(fc[1], who):
+                        v[who] = tuple(fc[2])
+        if v.get("self") == ("Some",) and v.get("other") == ("Some",):
+            both.append(sm)
+    if not both:
+        rep.fail("R16.8", "intersection", "no path of Rectangle::intersection is conditioned on both bottom_right() being Some", status="undecided", at=inter.span, fn=inter.path)
+        return
+    cur = {}
+
+    def leaf(t):
+        # self.top_left.{x,y}, payload(self.bottom_right()).{x,y} and the same for other
+        if t[0] == "field" and isinstance(t[2], int) and t[2] in (0, 1):
+            b = strip_refs(t[1])
+            if b[0] == "field" and b[2] == 0 and strip_refs(b[1])[0] == "param":
+                return cur.get((strip_refs(b[1])[2], "tl", t[2]))
+            if b[0] == "payload":
+                for who in ("self", "other"):
+                    if is_br(b[1], who):
+                        return cur.get((who, "br", t[2]))
+        return None
+    E = OrderEval(prog, leaf=leaf)
+    ncase = 0
+    bad = None
+    try:
+        axis_cases = [(a, b, c, d) for a, b, c, d in assignments(4) if a <= b and c <= d]
+        for xa in axis_cases:
+            for ya in axis_cases:
+                cur.clear()
+                for ax, dom, (a, b, c, d) in ((0, "x", xa), (1, "y", ya)):
+                    cur[("self", "tl", ax)], cur[("self", "br", ax)] = Sc(dom, a), Sc(dom, b)
+                    cur[("other", "tl", ax)], cur[("other", "br", ax)] = Sc(dom, c), Sc(dom, d)
+                hit = [sm for sm in both if all(fc[0] == "variant" or E.fact(fc, {}, 0) for fc in sm.facts)]
+                kinds = set()
+                for sm in hit:
+                    r = strip_refs(sm.ret)
+                    names = {x[1].split("::")[-1] for x in walk(r) if x[0] == "call"}
+                    kinds.add("corners" if "with_corners" in names or ({"component_max", "component_min"} <= names) else "empty" if names & {"zero", "default"} or "Size::zero" in show(r) else "other:" + show(r, maxd=3))
+                want = "corners" if (xa[0] <= xa[3] and xa[2] <= xa[1]) and (ya[0] <= ya[3] and ya[2] <= ya[1]) else "empty"
+                ncase += 1
+                if kinds != {want}:
+                    bad = "columns self %d..=%d other %d..=%d, rows self %d..=%d other %d..=%d (ranks): takes the %s exit, the common points need the %s exit" % (xa + ya + (sorted(kinds) or ["no"], want))
+                    raise StopIteration
+    except StopIteration:
+        pass
+    except Undecided as e:
+        rep.fail("R16.8", "intersection", "the overlap decision is not a pure comparison of the corner coordinates: %s" % e, status="undecided", at=inter.span, fn=inter.path)
+        return
+    rep.analysed["R16.8:order-type cases"] = ncase
+    rep.check(bad is None, "R16.8", "intersection", "Rectangle::intersection of non-empty rectangles: %s" % bad, at=inter.span, fn=inter.path,
+              detail={"cases": ncase, "functions": sorted(E.fns_seen)})
